@@ -292,6 +292,8 @@ func (c *vCPWorlds) get(kind string) *vWorld {
 		o.Realm = "EXAMPLE.COM"
 	case "ext1":
 		o.SSHExt = []sshExtension{{Key: "login@example.com", Value: "$USERNAME"}}
+	case "ext3":
+		o.SSHExt = []sshExtension{{Key: "no-touch-required@example.com", Value: ""}, {Key: "home", Value: "$USERNAME"}}
 	case "ext2":
 		o.SSHExt = []sshExtension{{Key: "login@example.com", Value: "$USERNAME"}, {Key: "role-$USERNAME", Value: "u=${USERNAME};fixed"}}
 	}
